@@ -8,7 +8,7 @@ TRANSPARENT = re.compile(
     r"core::ops::deref::Deref(Mut)?>::deref(_mut)?$|core::clone::Clone>::clone$|^core::clone::Clone::clone$"
     r"|core::convert::AsRef<.*>>::as_ref$|core::borrow::Borrow<.*>>::borrow$|::as_str$|::as_slice$|::as_ref$|::as_deref$|::as_mut$"
     r"|::as_path$|::to_owned$|::to_string$|::to_path_buf$|core::convert::(Into|From)<.*>>::(into|from)$|^core::convert::(Into|From)::(into|from)$"
-    r"|IntoIterator>::into_iter$|IntoIterator for .*>::into_iter$|core::slice::<impl \[T\]>::iter$|::iter$|core::option::Option::<T>::(unwrap|expect|unwrap_or_default|cloned|copied)$"
+    r"|IntoIterator>::into_iter$|IntoIterator for .*>::into_iter$|core::slice::<impl \[T\]>::iter(_mut)?$|::iter(_mut)?$|core::option::Option::<T>::(unwrap|expect|unwrap_or_default|cloned|copied)$"
     r"|core::result::Result::<T, E>::(unwrap|expect)$|alloc::rc::Rc::<T>::new$|alloc::boxed::Box::<T>::new$|alloc::sync::Arc::<T>::new$"
     r"|alloc::string::String::from$|alloc::borrow::ToOwned>::to_owned$|alloc::string::ToString>::to_string$|<str as alloc::string::SpecToString>::spec_to_string$")
 
